@@ -462,6 +462,13 @@ func scHandshake(t *testing.T, w *World, variant int) {
 	d.Forge = true
 	d.CPort = "transfer"
 	devs = append(devs, d)
+	// a consumer running other software may leave the version empty or blank: that is not the supported version either
+	for _, ver := range []string{"", " "} {
+		d = good
+		d.Forge = true
+		d.Version = ver
+		devs = append(devs, d)
+	}
 	if pc, cc, err := w.secondConnection(c0); err == nil {
 		d = good
 		d.PConn, d.CConn = pc, cc
@@ -607,7 +614,7 @@ func scFaults(t *testing.T, w *World, variant int) {
 // rewards (C16): fees on consumers, split, transmission, crediting, allocation on the provider
 
 func scRewards(t *testing.T, w *World, variant int) {
-	frac := []string{"0.75", "0.25", "0.00", "1.00"}[variant%4]
+	frac := []string{"0.75", "0.25", "0.00", "0.50", "0.75", "0.25", "0.10", "1.00"}[variant%8]
 	bpdt := int64(1 + variant%3)
 	mk := func(chain string, vals []string) string {
 		return w.quickConsumer(chain, 1, vals, map[string]any{"init": map[string]any{"initRev": 1, "spawn": w.now() + 30, "frac": frac, "bpdt": bpdt}})
@@ -633,12 +640,22 @@ func scRewards(t *testing.T, w *World, variant int) {
 	d0 := w.VoucherDenom(c0, "stake")
 	d1 := w.VoucherDenom(c1, "stake")
 	w.GovExec(map[string]any{"a": "ChangeRewardDenoms", "add": []string{d0}})
+	// consumers that also send their second fee denom (odd variants) get its voucher allow-listed as well: one consumer
+	// is then paid in two denoms in the same block
+	var extra0, extra1 []string
+	if variant%2 == 1 {
+		extra0 = []string{w.VoucherDenom(c0, "photon")}
+		extra1 = []string{w.VoucherDenom(c1, "photon")}
+	}
 	if variant%4 == 1 {
 		// the EARLIER consumer allow-lists the later consumer's denom; the later consumer itself does not:
 		// its credit in that denom must never be paid out
-		w.Block("p", 5, nil, map[string]any{"a": "UpdateConsumer", "sender": "o1", "c": c0, "denoms": []string{d1}})
+		w.Block("p", 5, nil, map[string]any{"a": "UpdateConsumer", "sender": "o1", "c": c0, "denoms": append([]string{d1}, extra0...)})
 	} else {
-		w.Block("p", 5, nil, map[string]any{"a": "UpdateConsumer", "sender": "o1", "c": c1, "denoms": []string{d1}})
+		w.Block("p", 5, nil, map[string]any{"a": "UpdateConsumer", "sender": "o1", "c": c1, "denoms": append([]string{d1}, extra1...)})
+		if len(extra0) > 0 {
+			w.Block("p", 5, nil, map[string]any{"a": "UpdateConsumer", "sender": "o1", "c": c0, "denoms": extra0})
+		}
 	}
 	w.Block("p", 5, nil, map[string]any{"a": "SetCommission", "v": "v2", "c": c0, "rate": "0.500000000000000000"})
 	// a per-consumer rate of exactly zero is a rate, too (the validators' provider commission is 10 %)
@@ -652,6 +669,20 @@ func scRewards(t *testing.T, w *World, variant int) {
 	for _, c := range []string{c0, c1} {
 		w.Block(c, 5, nil, map[string]any{"a": "RelayTo", "n": 3})
 	}
+	// rewards in a denom that is native to the provider: somebody moves provider stake to the consumer, the consumer accepts
+	// its voucher as a reward denom (ProviderRewardDenoms) and fees paid in it flow back as the NATIVE denom
+	provNative := variant%4 == 2
+	cNative := ""
+	if provNative {
+		w.GovExec(map[string]any{"a": "ChangeRewardDenoms", "add": []string{BondDenom}})
+		w.Block("p", 5, nil, map[string]any{"a": "Transfer", "c": c0, "denom": BondDenom, "amt": 500000})
+		w.Block(c0, 5, nil, map[string]any{"a": "UpdateClient"})
+		w.Block(c0, 5, nil, map[string]any{"a": "RelayTo", "n": 3, "port": "transfer"})
+		w.Block("p", 5, nil, map[string]any{"a": "UpdateClient", "c": c0})
+		w.Block("p", 5, nil, map[string]any{"a": "AckTo", "c": c0, "n": 3, "port": "transfer"})
+		w.ConsumerGovExec(c0, []string{"stake", "photon"}[:1+variant%2], []string{BondDenom})
+		cNative = ccvtypes.ParseDenomTrace("transfer/" + w.Links[c0].CXfer + "/" + BondDenom).IBCDenom()
+	}
 	allocFPs := []string{"Allocate:GetCommunityTax", "Allocate:SendCoinsFromModuleToModule", "Allocate:AllocateTokensToConsumerValidators", "Allocate:FundCommunityPool"}
 	amts := []int64{1, 3, 4, 7, 10, 101, 999, 1000}
 	for round := 0; round < 6; round++ {
@@ -659,6 +690,9 @@ func scRewards(t *testing.T, w *World, variant int) {
 			var txs []map[string]any
 			if !(variant%2 == 1 && round%3 == 1) { // some rounds collect fees in the second denom only
 				txs = append(txs, map[string]any{"a": "Fees", "denom": "stake", "amt": amts[(round*2+ci+variant)%len(amts)]})
+			}
+			if provNative && ci == 0 {
+				txs = append(txs, map[string]any{"a": "Fees", "denom": cNative, "amt": amts[(round+3)%len(amts)]})
 			}
 			if (round+variant)%2 == 0 || (variant%2 == 1 && round%3 == 1) {
 				txs = append(txs, map[string]any{"a": "Fees", "denom": "photon", "amt": amts[(round+ci)%len(amts)]})
@@ -674,9 +708,12 @@ func scRewards(t *testing.T, w *World, variant int) {
 		w.Block("p", 5, nil, map[string]any{"a": "RelayTo", "c": c0, "n": 3, "port": "transfer"}, map[string]any{"a": "RelayTo", "c": c1, "n": 3, "port": "transfer"})
 		if variant >= 12 && round >= 1 && round <= 3 {
 			// an external call fails inside one (consumer, denom) allocation of the next block
-			fp := allocFPs[variant%len(allocFPs)]
-			w.failAt[fp] = (variant / 4) % 2
-			w.rec.emit("p", "Arm", map[string]any{"point": fp, "skip": (variant / 4) % 2}, nil, nil)
+			fp := allocFPs[(variant/2)%len(allocFPs)]
+			// (skip 0: the first allocation of the block fails, i.e. the first denom of the first consumer, and later
+			//  denoms of the same consumer succeed; skip 1: the second one)
+			skip := (variant/4 + variant) % 2
+			w.failAt[fp] = skip
+			w.rec.emit("p", "Arm", map[string]any{"point": fp, "skip": skip}, nil, nil)
 		}
 		w.Block("p", 5, nil)
 		for _, fp := range allocFPs {
@@ -897,6 +934,18 @@ func scBulk(t *testing.T, w *World, variant int) {
 	// everything becomes due in one block; the rest follows in the next ones
 	w.Block("p", t1+2-w.now(), nil)
 	for i := 0; i < 3; i++ {
+		w.Block("p", 5, nil)
+	}
+	// per-consumer validator operations on consumers whose ids are string prefixes of each other ("1", "10", "100", "2", "20")
+	var ktx []map[string]any
+	for i, c := range []string{"c1", "c10", "c100", "c2", "c20", "c200"} {
+		ktx = append(ktx, map[string]any{"a": "AssignKey", "v": "v2", "c": c, "key": fmt.Sprintf("k%d", 1+i)})
+	}
+	ktx = append(ktx, map[string]any{"a": "OptIn", "v": "v3", "c": "c10"}, map[string]any{"a": "SetCommission", "v": "v3", "c": "c10", "rate": "0.300000000000000000"},
+		map[string]any{"a": "OptOut", "v": "v3", "c": "c1"}, map[string]any{"a": "UpdateConsumer", "sender": "o2", "c": "c1", "shaping": map[string]any{"denyL": []string{"v4"}, "valCap": 3}})
+	w.Block("p", 5, nil, ktx...)
+	w.Block("p", 5, nil, map[string]any{"a": "AssignKey", "v": "v2", "c": "c1", "key": "k7"}, map[string]any{"a": "OptOut", "v": "v2", "c": "c100"})
+	for i := 0; i < 4; i++ {
 		w.Block("p", 5, nil)
 	}
 	// infraction-parameter changes for every launched consumer: one request block (one due time) or three
